@@ -30,9 +30,9 @@ RULE = (
     "delimiters and template_comments=True; exhaustive), pair (every ordered pair of markup kinds with every "
     "combination of the facing markers and of the outer closing/opening markers, with nothing, whitespace or text "
     "between them; exhaustive), random (piece lists of 1..14 pieces: random paddings incl. unicode whitespace, nested "
-    "block comments containing markup, raw bodies containing markup, markup-like text). Every case is checked three "
+    "block comments containing markup, raw bodies containing markup, markup-like text). Every case is checked four "
     "ways: `finditer` of the compiled rules against matchesOf (match), the real token list against tokenize (tokens), "
-    "the rendered output against the model and against the direct specification spec_render (render). Non-trivial: "
+    "the parsed node list (classes and retained text) against parse (nodes), the rendered output against the model and against the direct specification spec_render (render). Non-trivial: "
     "some text piece next to markup has whitespace on the facing edge (so the marker decides what is output), or the "
     "case contains a raw / doc / comment piece."
 )
@@ -580,7 +580,7 @@ def gen_pieces(rng, d, n_items, names, depth=0, tail=""):
 def random_cases(ctx):
     rng = ctx.rng_for("random")
     out = []
-    for i in range(ctx.scale(1500, 40000)):
+    for i in range(ctx.scale(1500, 25000)):
         d = "comments" if rng.chance(45) else "default"
         ps = gen_pieces(rng, d, rng.range(1, 6), [])
         if not ps:
@@ -658,6 +658,29 @@ def impl_render(case):
         return {"out": env.from_string(src).render()}
     except Exception as e:
         return {"err": type(e).__name__}
+
+
+def impl_nodes(case):
+    env = get_env(case["d"])
+    src = assemble(delims(case), case["ps"])
+    try:
+        t = env.from_string(src)
+    except Exception as e:
+        return {"err": type(e).__name__}
+    out = []
+    for n in t.nodes:
+        cls = type(n).__name__
+        if cls == "ContentNode":
+            out.append(["text", n.text])
+        elif cls == "OutputNode":
+            out.append(["output"])
+        elif cls in ("CommentNode", "InlineCommentNode"):
+            out.append(["comment", n.text])
+        elif cls == "DocNode":
+            out.append(["doc", n.text])
+        else:
+            out.append(["tag", n.token.value])
+    return {"nodes": out}
 
 
 def facing_whitespace(ps):
@@ -789,7 +812,7 @@ class _PieceStream(Stream):
         return getattr(ctx, key)
 
     def impl(self, case):
-        return {"match": impl_match, "tokens": impl_tokens, "render": impl_render}[self.level](case)
+        return {"match": impl_match, "tokens": impl_tokens, "nodes": impl_nodes, "render": impl_render}[self.level](case)
 
     def line(self, case):
         return ["c10_" + self.level, delims(case), case["ps"]]
@@ -813,6 +836,15 @@ class _PieceStream(Stream):
             exp = spec_render(ps)
             if obs["out"] != exp:
                 return (mismatch_signature(ps, obs["out"], "render"), f"expected {exp!r}, got {obs['out']!r}")
+        elif self.level == "nodes":
+            if "err" in obs:
+                return None  # reported by the render level
+            # comment and doc nodes carry text but must be of a class that renders nothing; text nodes = the specification
+            got = [n[1] for n in obs["nodes"] if n[0] == "text"]
+            exp = [v for p, v in zip(ps, spec_content_contribs(ps)) if v is not None and (v or p[0] == "raw")]
+            if "".join(got) != "".join(exp):
+                cc = [v or "" for v in spec_content_contribs(ps)]
+                return (mismatch_signature(ps, "".join(got), "nodes", cc), f"content nodes {got!r}, expected {exp!r}")
         elif self.level == "tokens":
             if "err" in obs:
                 return (f"tokens|raises-{obs['err']}", f"tokenizing raised {obs['err']}")
@@ -892,6 +924,6 @@ class _PieceStream(Stream):
 def streams(ctx):
     out = [SpacesStream(), StripStream()]
     for fam in ("triple", "pair", "random"):
-        for lvl in ("match", "tokens", "render"):
+        for lvl in ("match", "tokens", "nodes", "render"):
             out.append(_PieceStream(fam, lvl))
     return out
